@@ -27,6 +27,7 @@ import (
 	"strings"
 
 	"github.com/metrico/qryn/reader/logql/logql_parser"
+	sql "github.com/metrico/qryn/reader/utils/sql_select"
 	"verif/harness/coqx"
 	"verif/harness/hx"
 	"verif/harness/sqlparse"
@@ -167,7 +168,7 @@ type qinfo struct {
 	labelVals map[string][]string
 	patterns  []string // every regular expression of the query
 	lineVals  []string // line filter values (|= != as text, |~ !~ as patterns)
-	nums      []string // numeric literals, and their %f renderings
+	nums      []string // numeric literals, and the text sql.FloatVal prints for them
 	nmatch    int
 	cons      []constraint // every comparison on a label (matchers and label filters)
 }
@@ -252,7 +253,7 @@ func (qi *qinfo) walkLF(f *logql_parser.LabelFilter) {
 			qi.cons = append(qi.cons, constraint{s.Label.Name, s.Fn, s.NumVal, true})
 			qi.nums = append(qi.nums, s.NumVal)
 			if fv, err := strconv.ParseFloat(s.NumVal, 64); err == nil {
-				qi.nums = append(qi.nums, fmt.Sprintf("%f", fv))
+				qi.nums = append(qi.nums, floatValText(fv))
 			}
 		}
 	} else if f.Head.ComplexHead != nil {
@@ -261,6 +262,15 @@ func (qi *qinfo) walkLF(f *logql_parser.LabelFilter) {
 	if f.Tail != nil {
 		qi.walkLF(f.Tail)
 	}
+}
+
+// floatValText is the text sql.FloatVal prints for v, taken from the real object: the literal the SQL carries
+func floatValText(v float64) string {
+	t, err := sql.NewFloatVal(v).String(&sql.Ctx{Params: map[string]sql.SQLObject{}, Result: map[string]sql.SQLObject{}})
+	if err != nil {
+		panic(err)
+	}
+	return t
 }
 
 // info returns nil when the query is outside the fragment
